@@ -15,6 +15,7 @@
 package etcd
 
 import (
+	"bytes"
 	"context"
 	"fmt"
 	"time"
@@ -164,7 +165,8 @@ func isCreate(txn *etcdserverpb.TxnRequest) *etcdserverpb.PutRequest {
 		txn.Compare[0].GetModRevision() == 0 &&
 		len(txn.Failure) == 0 &&
 		len(txn.Success) == 1 &&
-		txn.Success[0].GetRequestPut() != nil {
+		txn.Success[0].GetRequestPut() != nil &&
+		bytes.Equal(txn.Compare[0].Key, txn.Success[0].GetRequestPut().Key) {
 		return txn.Success[0].GetRequestPut()
 	}
 	return nil
@@ -175,7 +177,9 @@ func isDelete(txn *etcdserverpb.TxnRequest) (int64, []byte, bool) {
 		len(txn.Failure) == 0 &&
 		len(txn.Success) == 2 &&
 		txn.Success[0].GetRequestRange() != nil &&
-		txn.Success[1].GetRequestDeleteRange() != nil {
+		txn.Success[1].GetRequestDeleteRange() != nil &&
+		isSingleKeyDelete(txn.Success[1].GetRequestDeleteRange()) &&
+		isGetOfKey(txn.Success[0].GetRequestRange(), txn.Success[1].GetRequestDeleteRange().Key) {
 		rng := txn.Success[1].GetRequestDeleteRange()
 		return 0, rng.Key, true
 	}
@@ -185,7 +189,12 @@ func isDelete(txn *etcdserverpb.TxnRequest) (int64, []byte, bool) {
 		len(txn.Failure) == 1 &&
 		txn.Failure[0].GetRequestRange() != nil &&
 		len(txn.Success) == 1 &&
-		txn.Success[0].GetRequestDeleteRange() != nil {
+		txn.Success[0].GetRequestDeleteRange() != nil &&
+		// revision 0 means "delete the latest" in backend, but "delete if absent" in etcd
+		txn.Compare[0].GetModRevision() != 0 &&
+		isSingleKeyDelete(txn.Success[0].GetRequestDeleteRange()) &&
+		bytes.Equal(txn.Compare[0].Key, txn.Success[0].GetRequestDeleteRange().Key) &&
+		isGetOfKey(txn.Failure[0].GetRequestRange(), txn.Compare[0].Key) {
 		return txn.Compare[0].GetModRevision(), txn.Success[0].GetRequestDeleteRange().Key, true
 	}
 	return 0, nil, false
@@ -198,7 +207,10 @@ func isUpdate(txn *etcdserverpb.TxnRequest) (int64, []byte, []byte, int64, bool)
 		len(txn.Success) == 1 &&
 		txn.Success[0].GetRequestPut() != nil &&
 		len(txn.Failure) == 1 &&
-		txn.Failure[0].GetRequestRange() != nil {
+		txn.Failure[0].GetRequestRange() != nil &&
+		bytes.Equal(txn.Compare[0].Key, txn.Success[0].GetRequestPut().Key) &&
+		isPlainPut(txn.Success[0].GetRequestPut()) &&
+		isGetOfKey(txn.Failure[0].GetRequestRange(), txn.Compare[0].Key) {
 		return txn.Compare[0].GetModRevision(),
 			txn.Compare[0].Key,
 			txn.Success[0].GetRequestPut().Value,
@@ -206,6 +218,21 @@ func isUpdate(txn *etcdserverpb.TxnRequest) (int64, []byte, []byte, int64, bool)
 			true
 	}
 	return 0, nil, nil, 0, false
+}
+
+// isSingleKeyDelete returns true if the request deletes exactly one key and asks for nothing else
+func isSingleKeyDelete(r *etcdserverpb.DeleteRangeRequest) bool {
+	return len(r.RangeEnd) == 0 && !r.PrevKv
+}
+
+// isGetOfKey returns true if the request reads exactly the given key
+func isGetOfKey(r *etcdserverpb.RangeRequest, key []byte) bool {
+	return bytes.Equal(r.Key, key) && len(r.RangeEnd) == 0
+}
+
+// isPlainPut returns true if the request uses none of the unsupported options
+func isPlainPut(r *etcdserverpb.PutRequest) bool {
+	return !r.PrevKv && !r.IgnoreValue && !r.IgnoreLease
 }
 
 func isCompact(txn *etcdserverpb.TxnRequest) bool {
